@@ -41,7 +41,10 @@ RULE = (
     "with every name of <= 3 labels over a 3-letter alphabet plus in-zone and out-of-zone extras; a "
     "class dimension (CH zones), the public predicates Node.is_origin/is_delegation/is_glue/is_origin_or_glue, bounds given a str, "
     "the Bounds.name field, Delegations.get_delegation/is_glue called directly, reader.iterate_names()/zone.keys(), older "
-    "committed versions re-read at the end of the history, transactions abandoned by an exception; a malformed "
+    "committed versions re-read at the end of the history, transactions abandoned by an exception or a BaseException; every "
+    "public call form of the transaction API (owner as Name / str, rdataset / (ttl, rdata) / RRset, type as enum / mnemonic / "
+    "int, delete_exact, origin as text), hostile calls mid-transaction that must raise and change nothing, a third load route "
+    "(AXFR through dns.xfr.Inbound) with a loaded-content oracle, owner names of exactly 255 / 256 octets; a malformed "
     "stream (names outside the origin, over-long names, mixed case, SOA off the apex, first writer not a "
     "replacement, empty and rolled-back transactions); a case is non-trivial if its item list is new"
 )
@@ -149,7 +152,10 @@ class Spec:
         return [n for n in self.order() if self.is_deleg(n)]
 
     def visible(self):
-        return [n for n in self.order() if not self.is_glue(n)]
+        # the content of a Spec never changes after construction: remember the list (bounds is asked many times)
+        if getattr(self, "_vis", None) is None:
+            self._vis = [n for n in self.order() if not self.is_glue(n)]
+        return self._vis
 
     def bounds(self, q):
         vis = self.visible()
@@ -421,6 +427,7 @@ def evaluate(case):
             marks.append(("g", v0 is None or not check_state(v0, "commit", None)[0]))
             return
         pre_sp = None
+        before_abort = None if commit or committed_version() is None else show_snap(committed_version())
         try:
             if commit:
                 txn.commit()
@@ -438,6 +445,9 @@ def evaluate(case):
             out.append("FOREIGN:" + type(e).__name__)
             fails.append(("C20/txn-end/foreign-exception:" + type(e).__name__, f"commit/rollback raised {e!r}"))
         txn = None
+        if before_abort is not None and committed_version() is not None and show_snap(committed_version()) != before_abort:
+            fails.append(("C20/txn-end/abandoned-transaction-changed-the-zone",
+                          f"a transaction that was rolled back / left by an exception changed the committed version: {before_abort[:200]} -> {show_snap(committed_version())[:200]}"))
         record_commit()
 
     def record_commit():
@@ -497,6 +507,18 @@ def evaluate(case):
             return "ok LOAD!" + type(e).__name__, "ok", [("C20/load/raises:" + type(e).__name__, f"from_text raised {e!r} on {load_text(case)!r}")], \
                 {"ops": 0, "queries": 0, "commits": 0, "tainted": 0, "errors": 0, "marks": []}
         record_commit()
+        # the loaded content must be the records given (whatever the route: text or transfer)
+        sh_ = Shadow()
+        for it_ in items:
+            f_ = it_.split(":")
+            if f_[0] == "p":
+                k_ = validate_key(cfg, tuple(dec_labels(f_[1])))
+                if k_ is not None:
+                    sh_.put(k_, (int(f_[2]), int(f_[3])))
+        got_ = {k: set(t) for k, _, t in snap_of(committed_version())[0]} if committed_version() is not None else None
+        if got_ != sh_.c:
+            fails.append(("C20/load/content-differs-from-records/" + ("xfr" if load.get("xfr") else "text"),
+                          f"loaded zone holds {got_!r}, the records say {sh_.c!r}"))
         items = [i for i in items if i.startswith("Q")]
     for item in items:
         f = item.split(":")
@@ -686,11 +708,16 @@ def evaluate(case):
             break
     # every retained version (a reader may still hold it) must go on answering by the definition of *its* content
     for vi, (hv, snap0) in enumerate(held):
-        hsp = Spec(apex, {k: t for k, _, t in snap_of(hv)[0]}) if case.get("hq") else None
-        for qh in case.get("hq", ()):
+        if not case.get("hq"):
+            break
+        hsp = Spec(apex, {k: t for k, _, t in snap_of(hv)[0]})
+        if apex not in hsp.content or (vi == len(held) - 1 and check_state(hv, "held", None)[0]):
+            continue        # the last version's own inconsistency has been reported at its commit
+        hvis = None
+        for qh in case["hq"]:
             key = validate_key(cfg, tuple(dec_labels(qh)))
             want = hsp.bounds(key) if key is not None else None
-            if want is None or apex not in hsp.content or check_state(hv, "held", None)[0] and vi == len(held) - 1:
+            if want is None:
                 continue
             try:
                 b = hv.bounds(dns.name.Name(dec_labels(qh)))
@@ -1261,9 +1288,9 @@ def generate(ctx: Ctx, scale: int, rng):
             run_case(ctx, c, "load-order")
     for total in ([251, 252, 253, 254, 255, 379, 380, 381] if scale == 1 else
                   list(range(245, 262)) + list(range(372, 390)) + [506, 507, 508, 509]):
-        for _ in range(2 if scale == 1 else 4):
+        for _ in range(1 if scale == 1 else 4):
             run_case(ctx, gen_big(rng, total), "big-zone")
-    for ncuts in ([252, 253, 254, 380] if scale == 1 else [126, 127, 252, 253, 254, 255, 379, 380, 381, 507]):
+    for ncuts in ([253, 254, 380] if scale == 1 else [126, 127, 252, 253, 254, 255, 379, 380, 381, 507]):
         for commit in (False, True):
             run_case(ctx, gen_bigindex(rng, ncuts, commit), "big-index." + ("commit" if commit else "abort"))
     for _ in range(n(8)):
